@@ -56,6 +56,9 @@ type Alphabet struct {
 	Groups []Def        // up to three grouped AVPs (plain first)
 	Undef  []uint32     // codes the dictionary does not define for App
 	Cmds   []CmdDef
+	// Collide lists definitions that share their numeric code with another definition of a
+	// different vendor and type reachable from App (only the exact vendor tells them apart).
+	Collide []Def
 }
 
 type CmdDef struct {
@@ -98,6 +101,38 @@ func BuildAlphabet(d *Dict, app uint32) *Alphabet {
 			}
 		} else if _, have := a.Vend[k]; !have {
 			a.Vend[k] = def
+		}
+	}
+	// code collisions: the same code defined for two vendors with different types
+	byCode := map[uint32][]*refdict.XAVP{}
+	for _, v := range d.M.All {
+		if !chain[v.App] || d.M.FindCode(app, v.Code, v.Vendor) != v {
+			continue
+		}
+		byCode[v.Code] = append(byCode[v.Code], v)
+	}
+	var ccodes []uint32
+	for c, l := range byCode {
+		if len(l) >= 2 {
+			ccodes = append(ccodes, c)
+		}
+	}
+	sort.Slice(ccodes, func(i, j int) bool { return ccodes[i] < ccodes[j] })
+	for _, c := range ccodes {
+		l := byCode[c]
+		differ := false
+		for _, x := range l[1:] {
+			if x.Vendor != l[0].Vendor && x.Data.Type != l[0].Data.Type {
+				differ = true
+			}
+		}
+		if !differ || len(a.Collide) >= 8 {
+			continue
+		}
+		for _, x := range l {
+			if k, ok := KindOfTypeName(x.Data.Type); ok && k != KGroup {
+				a.Collide = append(a.Collide, Def{Code: x.Code, Vendor: x.Vendor, Name: x.Name, K: k, Must: x.Must})
+			}
 		}
 	}
 	for c := uint32(60001); len(a.Undef) < 2; c++ {
@@ -148,6 +183,9 @@ func GeneratedXML() string {
 		fmt.Fprintf(&b, `<avp name="GenV-%s" code="%d" must="V" may="P" must-not="-" may-encrypt="-" vendor-id="9999"><data type="%s"/></avp>`+"\n", n, code+1000, n)
 		code++
 	}
+	// one code shared by a plain Unsigned32 and a vendor-specific UTF8String
+	b.WriteString(`<avp name="Gen-Coll-Plain" code="73001" must="M" may="P" must-not="V" may-encrypt="-"><data type="Unsigned32"/></avp>` + "\n")
+	b.WriteString(`<avp name="Gen-Coll-Vendor" code="73001" must="V" may="P" must-not="-" may-encrypt="-" vendor-id="9999"><data type="UTF8String"/></avp>` + "\n")
 	for i := 0; i < 3; i++ {
 		v := ""
 		must := "M"
